@@ -22,12 +22,15 @@ Day == 86400
 SortInts(S) == SetToSortSeq(S, LAMBDA a, b : a < b)
 
 \* ---------------------------------------------------------------- firing instants of simple controls
+\* first_day of a clock-time control (optional field fd): days are counted on the clock, day 0 begins at clock 0:00 of the
+\* day the simulation starts in
+Fd(c) == IF "fd" \in DOMAIN c THEN c.fd ELSE 0
 CtlInstants(s, c) ==
   IF c.kind = "sim"
   THEN IF c.rep = 0 THEN (IF c.thr <= s.Dur THEN {c.thr} ELSE {})
        ELSE {c.thr + k * c.rep : k \in 0..((s.Dur - c.thr) \div c.rep)}
-  ELSE LET f == (c.thr - s.Start) % Day                       \* every day, honouring start_clocktime
-       IN  {f + k * Day : k \in 0..((s.Dur - f) \div Day)}
+  ELSE LET f == (c.thr - s.Start) % Day                       \* every day, honouring start_clocktime,
+       IN  {t \in {f + k * Day : k \in 0..((s.Dur - f) \div Day)} : (t + s.Start) \div Day >= Fd(c)}   \* from clock day fd on
 CtlFires(s, c, t) == t \in CtlInstants(s, c)
 
 \* ---------------------------------------------------------------- rule conditions, evaluated at a rule instant e
@@ -75,7 +78,9 @@ NextCtl(s, c, t) ==
   LET f == IF c.kind = "sim" THEN c.thr ELSE (c.thr - s.Start) % Day
       p == IF c.kind = "sim" THEN c.rep ELSE Day
       n == IF t < f THEN f ELSE IF p = 0 THEN Inf ELSE f + (((t - f) \div p) + 1) * p
-  IN  IF n > s.Dur THEN Inf ELSE n
+      later == {x \in CtlInstants(s, c) : x > t}
+  IN  IF c.kind = "clock" /\ Fd(c) > 0 THEN (IF later = {} THEN Inf ELSE MinOf(later))
+      ELSE IF n > s.Dur THEN Inf ELSE n
 NextRule(s, t) == IF s.rules = <<>> THEN Inf
                   ELSE LET n == ((t \div s.Rs) + 1) * s.Rs IN IF n > s.Dur \/ n < s.Rs THEN (IF t < 0 /\ s.Rs <= s.Dur THEN s.Rs ELSE Inf) ELSE n
 NextEvent(s, t) == MinOf({NextRule(s, t)} \cup {NextCtl(s, s.ctl[i], t) : i \in DOMAIN s.ctl})
